@@ -55,7 +55,7 @@ func main() {
 	if err := os.MkdirAll(scratchDir(), 0700); err != nil {
 		vk.Fatalf("scratch: %v", err)
 	}
-	u := buildUniverse(!r.Quick(), allCfgs)
+	u := buildUniverse(allCfgs)
 	ops := u.ops()
 	var opNames []string
 	for _, o := range ops {
@@ -75,16 +75,11 @@ func main() {
 	states, trans, evals := 0, 0, 0
 
 	if *flagPart == "all" || *flagPart == "seq" {
-		var specs [][2]interface{}
-		if r.Quick() {
-			specs = [][2]interface{}{{"s2f2q2", 5}, {"s1f4q1", 5}, {"default", 5}}
-		} else {
-			specs = [][2]interface{}{{"s2f2q2", 7}, {"s1f4q1", 7}, {"default", 6}, {"default-nocache", 6}, {"s3f2q1-utxo1", 6}}
-		}
+		specs := searchSpecs(!r.Quick())
 		if *flagOnly != "" {
-			var keep [][2]interface{}
+			var keep []searchSpec
 			for _, sp := range specs {
-				if sp[0].(string) == *flagOnly {
+				if sp.Name == *flagOnly {
 					keep = append(keep, sp)
 				}
 			}
@@ -92,6 +87,8 @@ func main() {
 		}
 		t0 := time.Now()
 		var per []interface{}
+		limits := map[string]int{}
+		seqCapped := false
 		mergeEvery := 25
 		if !orderControlled {
 			mergeEvery = 0 // successors are not a function of the state when Go's map order decides
@@ -99,7 +96,13 @@ func main() {
 		for _, st := range runSeq(r, u, specs, mergeEvery) {
 			fmt.Printf("seq/%-16s depth %d: states=%d transitions=%d disabled=%d per_depth=%v order_variants=%d merge_checks=%d reaps=%d capped=%v\n",
 				st.Name, st.Depth, st.States, st.Transitions, st.Disabled, st.PerDepth, st.OrderVariants, st.MergeChecks, st.Reaps, st.Capped)
-			fmt.Printf("    AddTx results: %v\n", st.AddResults)
+			fmt.Printf("    AddTx results: %v\n    limits reached/crossed (transitions): %v\n", st.AddResults, st.LimitsCrossed)
+			for l, n := range st.LimitsCrossed {
+				limits[l] += n
+			}
+			if st.Capped {
+				seqCapped = true
+			}
 			states += st.States
 			trans += st.Transitions
 			evals += st.Transitions + st.Reaps
@@ -107,6 +110,17 @@ func main() {
 		}
 		fmt.Printf("seq: %.1fs\n", time.Since(t0).Seconds())
 		r.Set("seq_searches", per)
+		r.Set("limits_crossed", limits)
+		// non-vacuity: every limit the pool and Reap apply must be reached or crossed by some history inside the bound
+		// (judged only on complete, violation-free runs of the whole sequential half)
+		if *flagOnly == "" && !seqCapped && r.NViolations() == 0 {
+			for _, l := range []string{"pool-size-reached", "future-size-reached", "account-queue-reached", "confidential-quota-exceeded:goodTxs",
+				"confidential-quota-exceeded:utxoTxs", "max-reap-size-exceeded", "reap-n-below-pool-content"} {
+				if limits[l] == 0 {
+					vk.Fatalf("vacuous bound: no explored history reaches the limit %q", l)
+				}
+			}
+		}
 	}
 	if *flagPart == "all" || *flagPart == "conc" {
 		s, t, e := runConc(r, u)
@@ -137,7 +151,7 @@ func replay(r *vk.Run) {
 		Choices  []int
 	}
 	r.LoadReplay(&rec)
-	u := buildUniverse(!r.Quick(), allCfgs)
+	u := buildUniverse(allCfgs)
 	defer u.close()
 	if rec.Scenario != "" {
 		for _, sc := range scenarios(!r.Quick()) {
@@ -155,7 +169,13 @@ func replay(r *vk.Run) {
 		vk.Fatalf("replay: unknown scenario %q (recorded in the other tier?)", rec.Scenario)
 	}
 	ops := u.ops()
-	in := u.newInst(rec.Search)
+	cfgName := rec.Search
+	if sp := findSearch(!r.Quick(), rec.Search); sp != nil {
+		cfgName = sp.Cfg
+	} else if sp := findSearch(r.Quick(), rec.Search); sp != nil {
+		cfgName = sp.Cfg
+	}
+	in := u.newInst(cfgName)
 	defer in.close()
 	fmt.Println("start:", in.stateString())
 	for _, st := range rec.Steps {
@@ -183,7 +203,7 @@ func replay(r *vk.Run) {
 
 func probe(r *vk.Run) {
 	t0 := time.Now()
-	u := buildUniverse(!r.Quick(), allCfgs)
+	u := buildUniverse(allCfgs)
 	defer u.close()
 	if os.Getenv("C15_BENCH") != "" {
 		defer pprof.StopCPUProfile()
